@@ -86,7 +86,8 @@ class GeneralNodeHeightTransform(Transform):
                     - bounds
                 ),
                 y[..., -1:],
-            )
+            ),
+            -1,
         )
 
     def log_abs_det_jacobian(self, x, y):
